@@ -30,8 +30,11 @@ enum {
 #define O_CTX     5   /* context counter as seen by the caller after the parse */
 #define O_NTERM   6   /* number of term values seen by functors */
 #define O_FLAGS   7   /* bit0 log overflow, bit1 reduction log overflow, bit2 term log overflow, bit3 ctx identity violated, bit4 value reuse */
-#define O_AUX     8   /* harness specific (8..15) */
-#define O_MSG0    16
+#ifndef MAXST
+#define MAXST 8
+#endif
+#define O_AUX     8   /* harness specific: hash log = h, nst, st[MAXST] */
+#define O_MSG0    (O_AUX + 2 + MAXST)
 #define MSG_SLOTS 5   /* kind, line, col, a, b */
 #define O_RED0    (O_MSG0 + MSG_SLOTS * MAXMSG)
 #define O_TERM0   (O_RED0 + MAXRED)
